@@ -78,7 +78,7 @@ def gen(rng, i, tier):
     props = rand_props(rng, d)
     pack = {"inside": rng.sample(["a.png", "B.JPG", "c.jpeg", "d.gif", "e.bmp", "f.txt", "z.PNG", "a_png", "thumbsgif", "oldbmp"], rng.choice([0, 0, 1, 2, 4])),
             "beside": rng.sample(["pack.png", "pack.jpg", "pack.bmp", "PACK.PNG", "packx.png", "other.png", "pack-png", "packjpg"], rng.choice([0, 1, 2]))}
-    return {"fs": rng.choice(["native", "mem"]), "dir": c19.enc_tree(d), "props": props, "pack": pack, "pack_spelling": rng.choice([None, None, "sep", "dot"]), "dir_spelling": rng.choice([None, None, "sep"])}
+    return {"fs": rng.choice(["native", "mem"]), "dir": c19.enc_tree(d), "props": props, "pack": pack, "pack_spelling": rng.choice([None, None, "sep", "dot", "rel", "relsep"]), "dir_spelling": rng.choice([None, None, "sep"])}
 
 
 def build_tree(c):
@@ -120,7 +120,18 @@ def impl(c):
         res["exists"] = exists
         # the pack directory as a caller may spell it: plain, with a trailing separator, with a trailing "/."
         spelled = t.root + {"sep": t.sep, "dot": t.sep + "."}.get(c.get("pack_spelling"), "")
-        res["pack_banner"] = t.rel(SimfilePack(spelled, filesystem=t.fs).banner())
+        if c.get("pack_spelling") in ("rel", "relsep") and t.kind == "native":
+            # a bare relative name, from inside the directory that holds the pack
+            import os
+            cwd = os.getcwd()
+            os.chdir(t.base)
+            try:
+                b = SimfilePack(os.path.basename(t.root) + (os.sep if c["pack_spelling"] == "relsep" else ""), filesystem=t.fs).banner()
+            finally:
+                os.chdir(cwd)
+            res["pack_banner"] = t.rel(b if b is None or os.path.isabs(b) else os.path.join(t.base, b))
+        else:
+            res["pack_banner"] = t.rel(SimfilePack(spelled, filesystem=t.fs).banner())
         return res
     finally:
         t.close()
